@@ -161,11 +161,15 @@ def diff_model(st, rec, m):
         return None if ('skipped' in v) == ('skipped' in m) else ('skipped', f'impl {v} model {m}')
     if 'nonint' in v:
         return ('non-integer-values', 'implementation produced non-integer entries')
+    if st['op'] == 'spec' and 'error' in v:
+        return None
     if 'error' in v or 'error' in m:
         if v.get('error') != m.get('error'):
             return ('error-class', f'impl {v.get("error", "no error")} ({rec.get("res", {}).get("msg", "")}) '
                                    f'vs model {m.get("error", "no error")}')
         return None
+    if st['op'] == 'spec' and 'error' in v:
+        return None      # dense-level specification only: validity of the call is judged by the numpy oracle
     if st['op'] == 'spec':
         got = rec['res'].get('arr', {}).get('dense') if 'arr' in rec['res'] else None
         if got is not None and m.get('dense') != got:
@@ -275,6 +279,10 @@ def judge_c01(res, cases, runs, models, configs):
                 if 'crash' in rec:
                     res.fail('correspondence', f'c01.{opname(st)}.oracle-crash', f'[{cfg}] ' + rec['crash'][-500:],
                              slice_case(case, k))
+                r = rec.get('res', {})
+                if 'error' in r and st.get('sure') and rec.get('numpy_accepts') and not r['error'].startswith('Crash'):
+                    sig = f'c01.{opname(st)}.raises-on-valid-call.{r["error"]}' + refine(st)
+                    rec.setdefault('oracle', []).append([sig, r.get('msg', '')])
                 for sig, detail in rec.get('oracle', []):
                     flagged_steps.add(k)
                     if sig not in seen:
@@ -297,6 +305,17 @@ def judge_c01(res, cases, runs, models, configs):
                     break
                 if d:
                     break    # later steps depend on a value the oracle already rejected
+
+
+def refine(st):
+    """call-site detail that makes a signature specific"""
+    if st['op'] == 'spec' and st.get('what', '').startswith('setitem'):
+        for i in st.get('inds', []):
+            if isinstance(i, dict) and 'ints' in i and i['ints'] != sorted(i['ints']):
+                return ':unsorted-index-array'
+            if isinstance(i, dict) and 'slice' in i and (i['slice'][2] or 1) < 0:
+                return ':unsorted-index-array'
+    return ''
 
 
 def describe(st):
